@@ -25,9 +25,10 @@
      Missing for the full statement: it is false in the model and in the code.
    * N2: with follow_links pruning is applied to the directories of the route, which are not
      ancestors of the file (C09_N2_witness): conservativity of matches_dir does not help.
-   * K3 (--exclude /x/b prunes /x/bar) lives inside sel_dir: it is a failure of the hypothesis
-     `conservative` (engine P's C16_partial_conservative, which excludes --exclude), checked on every
-     generated case by the correspondence harness; it is not visible in this model.
+   * K3 (--exclude /x/b pruned /x/bar) was repaired in the code (f55c3e7); C09_exact_exclude states the
+     exactness with --exclude under the component-aligned prefix hypotheses, which the correspondence
+     harness evaluates on every generated case (a regression is a VIOLATION
+     `exclude_prefix_prunes_sibling` with the concrete input).
    * N4 (hidden input path skipped) was fixed in the code (b49314c): the hidden test applies at level > 0. *)
 From FV Require Import Base WalkModel WalkProofs WalkProofs2 WalkProofs3 WalkProofs4.
 Open Scope N_scope.
@@ -50,6 +51,26 @@ Theorem C09_exact :
     (In x l <-> selected sel_file sel_dir ign1 t c false roots x /\ size_ok t c x = true).
 Proof. exact stmt_exact. Qed.
 Print Assumptions C09_exact.
+
+(* Exactness WITH --exclude (K3 is repaired: Pattern::matches_prefix stops at component boundaries).
+   excl d = "some --exclude pattern matches the path d fully"; the hypotheses are the selector-level facts
+   (engine P): (1) matches_dir rejects a PROPER ancestor of an accepted path only if an exclude pattern matches that
+   directory or one above it (the path of a reported file or link is itself never filtered: visit_path
+   filters the parent of a regular file or link since b09e022 / 81dbf73), (2) it rejects everything at or below an excluded
+   path, (3) an excluded path is not accepted as a file.  The reference reading: an excluded directory
+   is ignored with everything below it = pruning with `not_below excl` (which is not the code's
+   matches_dir).  C09_exact is the special case excl = fun _ => false. *)
+Theorem C09_exact_exclude :
+  forall sel_file sel_dir ign1 t c excl sched roots l x,
+    (forall p d, sel_file p = true -> prefix d p -> d <> p ->
+                 sel_dir d = true \/ exists d', prefix d' d /\ excl d' = true) ->
+    (forall d d', excl d' = true -> prefix d' d -> sel_dir d = false) ->
+    (forall p, sel_file p = true -> excl p = false) ->
+    c_follow c = false ->
+    scan sel_file sel_dir ign1 t c sched roots = Done l ->
+    (In x l <-> selected sel_file (not_below excl) ign1 t c true roots x /\ size_ok t c x = true).
+Proof. exact stmt_exact_exclude. Qed.
+Print Assumptions C09_exact_exclude.
 
 (* With link following: exact when the options are route independent. *)
 (* (the level-dependent hidden test is one more route-dependent option: an input path /r/l -> .h that is
@@ -138,3 +159,12 @@ Example C09_hidden_root_scanned :
   scan all_true all_true no_ign htree wcfg3 sched_lifo [[nH]] = Done [[nH; nF]] /\
   scan all_true all_true no_ign htree wcfg3 sched_lifo [[]] = Done [].
 Proof. exact ex_hidden_root. Qed.
+
+(* the hypotheses of C09_exact_exclude are satisfiable: --exclude /a on the witness tree *)
+Example C09_exact_exclude_inhabited :
+  (forall p d, xsel_file p = true -> prefix d p -> d <> p ->
+               xsel_dir d = true \/ exists d', prefix d' d /\ xexcl d' = true) /\
+  (forall d d', xexcl d' = true -> prefix d' d -> xsel_dir d = false) /\
+  (forall p, xsel_file p = true -> xexcl p = false) /\
+  scan xsel_file xsel_dir no_ign wtree wcfg3 sched_lifo [[]] = Done [[nD; nF]].
+Proof. exact ex_exclude. Qed.
